@@ -106,7 +106,7 @@ CLAIMED = {
         'by the property itself and, when the second party met the original message, the outcome must be one the model can reach.',
    note='Bound: at most three parties (stated in the theorems). Known finding F-16: a second mdsort that WALKS the maildir while the first one\'s uncommitted rewritten copy is '
         'visible there (copies are created in new/ or cur/, not tmp/) selects it as a message - the message is duplicated; outside the single-message model, exhibited on the '
-        'binary and listed in known-findings.txt. Only one preemption point per binary run; thread-level simultaneity inside the kernel is not exercised.',
+        'binary and listed in known-findings.txt. Quick tier: one preemption point per binary run; thorough tier adds sampled three-party schedules with two preemption points. Thread-level simultaneity inside the kernel is not exercised.',
    technique='Coq proof (exhaustive reachable-state exploration by reflection, closure lemma) + schedule-controlled differential runs under the interposer',
    ref='DESIGN 6 C17'),
  'C18': dict(
